@@ -39,6 +39,10 @@ HARNESSES = [
        scenarios=[{'TYPE': t, 'KIND': k} for t in (0, 1) for k in (0, 1)], timeout=900,
        desc='blocked_range<size_t|int> split / proportional split: parts non-empty, adjacent, cover, grain kept; even split halves >= ceil(g/2)',
        bounds={'begin,end,grainsize': 'all 64-bit (int: all 32-bit with end-begin representable)', 'proportion': 'left=n-n/2,right=n/2 for every 2<=n<=2^32', 'loops': 'none'}),
+  dict(name='range1d_wide', unit='range', harness='h_range1d_wide.c', defines={'NMAX': '4294967296ul'},
+       scenarios=[{'TYPE': 1, 'KIND': 0}, {'TYPE': 2, 'KIND': 0}], timeout=900,
+       desc='blocked_range<int|long> even split incl. ranges holding more elements than the signed type can count (end-begin wraps): begin < m < end, halves tile [begin,end)',
+       bounds={'begin,end': 'every begin<end of int / long (no representability assumption)', 'grainsize': 'all 64-bit >= 1, real is_divisible() assumed', 'loops': 'none'}),
   dict(name='rangend', unit='range', harness='h_rangend.c', defines={'NMAX': '4294967296ul', 'LIMIT': 64}, cbmc=['--unwind', '4'],
        scenarios_quick=[{'SHAPE': 2, 'KIND': 0}, {'SHAPE': 3, 'KIND': 0}, {'SHAPE': 4, 'KIND': 0}, {'SHAPE': 2, 'KIND': 0, 'TYPE': 1},
                         {'SHAPE': 2, 'KIND': 1, 'NMAX': 3}, {'SHAPE': 4, 'KIND': 1, 'NMAX': 3}],
